@@ -7,6 +7,8 @@ open Lean Shelx.J
   C11 driver.
     {"p":"C11","op":"table"}                       -> the tabulated settings [{name, N, S, order}]
     {"p":"C11","op":"expand","N":n|null,"params":[…]?,"S":[op…]} -> {model: [op…] | null, spec: [op…], valid, mult, N}
+    {"p":"C11","op":"shift","N":n,"S":[op…],"u":[[num,den]×3]} -> {N, S: the setting referred to an origin moved by u
+                                                      (`shiftSetting`), group: the operators of LATT n / SYMM S moved (`shiftOp`)}
   An operator travels as {"m":[9 ints, row by row],"t":[[num,den],[num,den],[num,den]]} (exact).
 -/
 namespace Shelx.Drv.C11
@@ -50,6 +52,15 @@ def handle (j : Json) : Except String Json := do
     return Json.mkObj [("model", model), ("spec", ofOps spec),
                        ("valid", Json.bool (validB n s)),
                        ("mult", ofNat (mult n)), ("N", ofInt n)]
+  | "shift" =>
+    let n ← field j "N" >>= int
+    let s ← (← arrField j "S").mapM opOf
+    let u ← (← arrField j "u").mapM ratPair
+    match u with
+    | [x, y, z] =>
+      let r := shiftSetting ⟨x, y, z⟩ n s
+      return Json.mkObj [("N", ofInt r.1), ("S", ofOps r.2), ("group", ofOps ((fullGroup n s).map (shiftOp ⟨x, y, z⟩)))]
+    | _ => err "C11 shift: u needs three components"
   | _ => err s!"C11: unknown op {op}"
 
 end Shelx.Drv.C11
